@@ -816,6 +816,58 @@ def gen_getloc(tree):
     return GETLOC_LEAN
 
 
+COMPILE = ["if provenance.max_disjunctions > 1:\n    raise ValueError('Provenance with disjunctions cannot be compiled into an ADD.')",
+           'if provenance.max_conjunctions == 1:\n    locations: List[List[Tuple]] = list(map(lambda x: [(x[0], 0, x[1])], map(tuple, provenance.data[:, 0, 0, 0:2])))\n    add = ADD.construct_chain(units=list(range(provenance.num_units)), num_candidates=provenance.num_candidates, atype=atype)\n    return (add, locations)\nelse:\n    tuple_units = [np.sort(np.delete(a, np.asarray(a == -1).nonzero())) for a in provenance.data[:, 0, :, 0]]\n    tuple_unit_pairs = map(partial(combinations, r=2), tuple_units)\n    pairings = np.array(list(set(chain.from_iterable(tuple_unit_pairs))))\n    unique, unique_counts = np.unique(pairings, return_counts=True)\n    degrees = np.zeros((provenance.num_units,), dtype=int)\n    degrees[unique] = unique_counts\n    neighbors = csr_matrix((np.repeat(1, repeats=pairings.shape[0]), (pairings[:, 0], pairings[:, 1])), shape=[provenance.num_units, provenance.num_units])\n    neighbors += neighbors.transpose()\n    num_components, components_index = connected_components(neighbors, directed=False, return_labels=True)\n    components: List[Set[int]] = [set() for _ in range(num_components)]\n    for unit, component in enumerate(components_index):\n        components[component].add(unit)\n    leaf_units = set()\n    available_units = set(range(provenance.num_units))\n    for unit in np.argsort(degrees):\n        if unit in available_units:\n            leaf_units.add(unit)\n            available_units.difference_update(neighbors.getrow(unit).indices)\n    vertical_elements = []\n    for component in components:\n        factors = sorted(component - leaf_units)\n        leaves = sorted(component & leaf_units)\n        element = ADD.construct_chain(units=leaves, num_candidates=provenance.num_candidates, atype=atype)\n        horizontal_elements = dict(((a, deepcopy(element)) for a in product(*[range(provenance.num_candidates) for _ in range(len(factors))])))\n        if len(factors) == 0:\n            vertical_elements.append(element)\n        else:\n            vertical_elements.append(ADD.stack(factors=factors, elements=horizontal_elements))\n    add = ADD.concatenate(elements=vertical_elements)\n    locations = []\n    for i in range(len(provenance)):\n        assignments = filter(lambda x: x[0] != -1 and x[1] != -1, map(tuple, provenance.data[i, 0, :, :]))\n        units, values = zip(*assignments)\n        locations.append(add.get_update_location(units=units, values=values))\n    return (add, locations)']
+COMPILE_LEAN = """/-- translated from `oracle.py:compile` (template).  The GRAPH part of the general branch — pairings, degrees, `csr_matrix`, `connected_components`, the greedy choice of leaf
+units over `np.argsort(degrees)` — is NOT translated: its two results are parameters (`components`: the unit sets of the connected components in label order, a non-empty list;
+`leaf_units`: the chosen leaves).  Translated: the rejection of disjunctions; the single-literal branch (one chain over all units, a row's location is its literal as stored); and
+the assembly of the general branch — per component a chain over its sorted leaves, stacked under its sorted factors when it has any (a `dict` over `itertools.product` of the
+candidate values, every entry a deepcopy of that chain, so `ADD.stack` receives the chain `num_candidates ** len(factors)` times), all components concatenated (the result object
+has the constructor's 2 candidates), and one `get_update_location` per row over the literals of its first disjunct that contain no -1 (`zip(*[])` for a row without such a
+literal: ValueError).  `data` = `provenance.data` as `[row][disjunct][conjunct][2]`. -/
+def compile {ν : Type} [Inhabited ν] (vzero : ν) (max_disjunctions max_conjunctions num_units num_candidates : Int) (data : List (List (List (List Int))))
+    (components : List (List Int)) (leaf_units : List Int) : Except String (Fld ν × List (List (Int × Int × Int))) := do
+  if max_disjunctions > (1 : Int) then throw "ValueError"
+  if max_conjunctions == (1 : Int) then
+    let locations : List (List (Int × Int × Int)) := data.map (fun row =>
+      let x : List Int := Np.get1 (Np.get1 row (0 : Int)) (0 : Int)
+      [(Np.get1 x (0 : Int), (0 : Int), Np.get1 x (1 : Int))])
+    let add : Fld ν := construct_chain vzero (Np.range (0 : Int) num_units (1 : Int)) num_candidates
+    pure (add, locations)
+  else
+    let vertical_elements ← components.mapM (fun (component : List Int) => do
+      let factors : List Int := (component.filter (fun u => !leaf_units.contains u)).mergeSort (fun a b => decide (a ≤ b))
+      let leaves : List Int := (component.filter (fun u => leaf_units.contains u)).mergeSort (fun a b => decide (a ≤ b))
+      let element : Fld ν := construct_chain vzero leaves num_candidates
+      let horizontal_elements : List (Fld ν) := (Np.product (List.replicate factors.length (Np.range (0 : Int) num_candidates (1 : Int)))).map (fun _ => element)
+      if Np.len1 factors == (0 : Int) then (pure element : Except String (Fld ν))
+      else add_stack vzero factors horizontal_elements num_candidates)
+    let add : Fld ν := add_concatenate vzero (2 : Int) vertical_elements
+    let locations ← data.mapM (fun row => do
+      let assignments : List (List Int) := (Np.get1 row (0 : Int)).filter (fun x => Np.get1 x (0 : Int) != (-1 : Int) && Np.get1 x (1 : Int) != (-1 : Int))
+      if assignments.isEmpty then throw "ValueError"
+      add_get_update_location add.1 add.2.1 add.2.2.1 add.2.2.2.1 (2 : Int) (assignments.map (fun x => Np.get1 x (0 : Int))) (assignments.map (fun x => Np.get1 x (1 : Int))))
+    pure (add, locations)
+"""
+
+
+def gen_compile(repo):
+    tree = ast.parse(open(os.path.join(repo, "datascope/importance/oracle.py")).read())
+    fn = next((n for n in tree.body if isinstance(n, ast.FunctionDef) and n.name == "compile"), None)
+    if fn is None:
+        raise Untranslatable("oracle.compile not found")
+    got = [U(st) for st in fn.body if not (isinstance(st, ast.Expr) and isinstance(st.value, ast.Constant))]
+    if got != COMPILE:
+        diff = "statement count %d != %d" % (len(got), len(COMPILE))
+        for g, w in zip(got, COMPILE):
+            if g != w:
+                gl, wl = g.split("\n"), w.split("\n")
+                diff = next((a for a, b in zip(gl, wl) if a != b), "line count %d != %d" % (len(gl), len(wl)))
+                break
+        raise Untranslatable("oracle.compile does not match the template: %s" % str(diff).strip()[:160])
+    return COMPILE_LEAN
+
+
 def gen_concat(tree):
     fn = method(tree, "ADD", "concatenate")
     got = [U(st) for st in fn.body if not (isinstance(st, ast.Expr) and isinstance(st.value, ast.Constant))]
@@ -924,6 +976,14 @@ def generate(repo=REPO):
             report["ADD.get_update_location"] = dict(ok=True)
         except Untranslatable as e:
             report["ADD.get_update_location"] = dict(ok=False, why=str(e))
+        if all(report.get(k, {}).get("ok") for k in ("ADD.concatenate", "ADD.stack", "ADD.get_update_location", "ADD.update / construct_chain")):
+            try:
+                parts.append(gen_compile(repo))
+                report["oracle.compile (assembly)"] = dict(ok=True)
+            except Untranslatable as e:
+                report["oracle.compile (assembly)"] = dict(ok=False, why=str(e))
+        else:
+            report["oracle.compile (assembly)"] = dict(ok=False, why="a function it calls was not translated")
         try:
             txt, f = gen_oracle_init(repo)
             parts.append(txt)
